@@ -208,7 +208,7 @@ func TestECRecover(t *testing.T) {
 	rec := ev.Get(ID)
 	rec.SetRule(rule)
 	g := genECRec()
-	checkSerial(rec, t, "ecrecover", ev.N(50, 3000), func(rt *rapid.T) {
+	checkSerial(rec, t, "ecrecover", ev.N(50, 1200), func(rt *rapid.T) {
 		c := g.Draw(rt, "case")
 		rec.Report(rt, "ecrecover", c, runECRec(c))
 	})
@@ -291,6 +291,9 @@ func TestBNAddMul(t *testing.T) {
 	t.Parallel()
 	rec := ev.Get(ID)
 	rec.SetRule(rule)
+	if !firstShard() {
+		return
+	}
 	cv := curves["bn254"]
 	P := cv.derive("evm")
 	var cases []BNCase
